@@ -1254,6 +1254,10 @@ class Engine(object):
         from .values import TInt as _TI, TBool as _TB
         if isinstance(kshape, (_TI, _TB, TBV)):
             return kq
+        from .values import TTuple as _TT, key_sort as _ks
+        if isinstance(kshape, _TT) and all(isinstance(i, (_TI, _TB, TBV)) for i in kshape.items):
+            ks = _ks(kshape)
+            return tuple(getattr(ks, "f%d" % i)(kq) for i in range(len(kshape.items)))
         raise EngineError("iteration over a map with structured keys")
 
     def ev_DictComp(self, node, st):
@@ -1430,7 +1434,10 @@ class Engine(object):
                         return rb[0][1]
                     fn(z3.Int(fresh_name("probe")))      # fail early if not supported
                     return [(s1, ImgSetV(sq, fn))]
-            r = self.comprehension(node.args[0], st, "condset")
+            try:
+                r = self.comprehension(node.args[0], st, "condset")
+            except EngineError:
+                r = []          # (a generator over the entries of a symbolic map is handled below)
             if len(r) == 1 and isinstance(r[0][1], LitSet):
                 return r
         if (isinstance(node.func, ast.Name) and node.func.id == "sum" and len(node.args) == 1
@@ -1464,6 +1471,112 @@ class Engine(object):
                     total = ar.binop('+', total, term)
                 if ok:
                     return [(s1, total)]
+        if (isinstance(node.func, ast.Name) and node.func.id in ("set", "frozenset") and len(node.args) == 1 and not node.keywords
+                and isinstance(node.args[0], ast.GeneratorExp) and len(node.args[0].generators) == 1 and node.func.id not in st.env):
+            # set(key for key, value in iteritems(m) if cond): the set of the keys of a symbolic map that pass the filter
+            g = node.args[0].generators[0]
+            r = self.ev(g.iter, st)
+            if len(r) == 1 and isinstance(r[0][1], MapViewV) and r[0][1].what in ("items", "keys"):
+                mv, s1 = r[0][1], r[0][0]
+                kq = z3.Const(fresh_name("k"), mv.m.dom.sort().domain())
+                val, facts = self.map_get(mv.m, kq)
+                kval = self.key_value(mv.m.key, kq)
+                el = (kval, val) if mv.what == "items" else kval
+                s_in = self.assign(g.target, el, s1.assume(z3.Select(mv.m.dom, kq), *facts))
+                n_obl = len(self.obligations)
+                filt, ok_f = [], True
+                for cnode in g.ifs:
+                    rc = self.ev(cnode, s_in)
+                    if len(rc) != 1 or isinstance(rc[0][1], Raised):
+                        ok_f = False
+                        break
+                    filt.append(ops._tb(truth(rc[0][1])))
+                rb = self.ev(node.args[0].elt, s_in) if ok_f else []
+                same = False
+                if len(rb) == 1 and not isinstance(rb[0][1], Raised) and len(self.obligations) == n_obl:
+                    ev_ = rb[0][1]
+                    a_ = list(ev_) if isinstance(ev_, tuple) else [ev_]
+                    b_ = list(kval) if isinstance(kval, tuple) else [kval]
+                    same = len(a_) == len(b_) and all(is_z3(x_) and is_z3(y_) and x_.eq(y_) for x_, y_ in zip(a_, b_))
+                if same:
+                    dom2 = z3.Array(fresh_name("keyset"), kq.sort(), z3.BoolSort())
+                    ops.define(dom2.decl().name(), z3.ForAll([kq], z3.Select(dom2, kq) == z3.And(z3.Select(mv.m.dom, kq), *filt), patterns=[z3.Select(dom2, kq)]))
+                    return [(s1, SetV(mv.m.key, dom2))]
+                del self.obligations[n_obl:]
+                raise EngineError("set(...) over a symbolic map whose element is not the key itself (line %d)" % node.lineno)
+        if (isinstance(node.func, ast.Name) and node.func.id in ("max", "min") and len(node.args) == 1 and not node.keywords
+                and isinstance(node.args[0], ast.GeneratorExp) and len(node.args[0].generators) == 1 and node.func.id not in st.env):
+            # max / min of an integer expression over the (filtered) entries of a symbolic map: a fresh integer that bounds every
+            # selected entry's value and is attained by one of them; ValueError when nothing is selected
+            g = node.args[0].generators[0]
+            r = self.ev(g.iter, st)
+            if len(r) == 1 and isinstance(r[0][1], SetV):
+                # a symbolic set: its members, as the keys of a map without values
+                import types as _types
+                sv_ = r[0][1]
+                r = [(r[0][0], MapViewV(_types.SimpleNamespace(dom=sv_.dom, key=sv_.key, arrs=[], val=None), "setkeys"))]
+            if len(r) == 1 and isinstance(r[0][1], MapViewV):
+                mv, s1 = r[0][1], r[0][0]
+                kq = z3.Const(fresh_name("k"), mv.m.dom.sort().domain())
+                val, facts = self.map_get(mv.m, kq) if mv.what != "setkeys" else (None, [])
+                kval = self.key_value(mv.m.key, kq)
+                el = {"items": (kval, val), "values": val, "keys": kval, "setkeys": kval}[mv.what]
+                kfacts = []
+                from .values import TTuple as _TT2, range_facts as _rf, shape_leaves as _sl
+                kl = list(kval) if isinstance(kval, tuple) else [kval]
+                for sh_, t_ in zip(_sl(mv.m.key), kl):
+                    kfacts.extend(_rf(sh_, t_))
+                s_in = self.assign(g.target, el, s1.assume(z3.Select(mv.m.dom, kq), *facts, *kfacts))
+                n_obl = len(self.obligations)
+                filt, ok_f = [], True
+                for cnode in g.ifs:
+                    rc = self.ev(cnode, s_in)
+                    if len(rc) != 1 or isinstance(rc[0][1], Raised):
+                        ok_f = False
+                        break
+                    filt.append(ops._tb(truth(rc[0][1])))
+                rb = self.ev(node.args[0].elt, s_in) if ok_f else []
+                def _int_like(v_):
+                    return (is_z3(v_) and z3.is_int(v_)) or (isinstance(v_, int) and not isinstance(v_, bool))
+                if (len(rb) == 1 and not isinstance(rb[0][1], Raised) and len(self.obligations) == n_obl
+                        and isinstance(rb[0][1], tuple) and 1 <= len(rb[0][1]) <= 3 and all(_int_like(v_) for v_ in rb[0][1])):
+                    # tuples of integers compare lexicographically
+                    comps = [to_int_term(v_) for v_ in rb[0][1]]
+                    sel = z3.And(z3.Select(mv.m.dom, kq), *filt)
+                    some = z3.Exists([kq], sel)
+                    out = []
+                    for s2, _v in self.partial(s1, node, 'ValueError', some, None):
+                        if isinstance(_v, Raised):
+                            out.append((s2, _v))
+                            continue
+                        ms = [z3.Int(fresh_name(node.func.id)) for _ in comps]
+
+                        def lex_le(a, b):           # a <= b lexicographically
+                            if len(a) == 1:
+                                return a[0] <= b[0]
+                            return z3.Or(a[0] < b[0], z3.And(a[0] == b[0], lex_le(a[1:], b[1:])))
+                        bound = lex_le(comps, ms) if node.func.id == "max" else lex_le(ms, comps)
+                        s3 = s2.assume(z3.ForAll([kq], z3.Implies(sel, bound)), z3.Exists([kq], z3.And(sel, *[c == m_ for c, m_ in zip(comps, ms)])))
+                        out.append((s3, tuple(ms)))
+                    return out
+                if len(rb) == 1 and not isinstance(rb[0][1], Raised) and len(self.obligations) == n_obl and is_z3(rb[0][1]) and z3.is_int(rb[0][1]):
+                    body = rb[0][1]
+                    # (the type facts of keys and values are assumptions about every entry of a well-typed map; the selection itself
+                    #  is "is an entry and passes the filter")
+                    sel = z3.And(z3.Select(mv.m.dom, kq), *filt)
+                    some = z3.Exists([kq], sel)
+                    out = []
+                    for s2, _v in self.partial(s1, node, 'ValueError', some, None):
+                        if isinstance(_v, Raised):
+                            out.append((s2, _v))
+                            continue
+                        m_ = z3.Int(fresh_name(node.func.id))
+                        bound = (body <= m_) if node.func.id == "max" else (body >= m_)
+                        s3 = s2.assume(z3.ForAll([kq], z3.Implies(sel, bound)), z3.Exists([kq], z3.And(sel, body == m_)))
+                        out.append((s3, m_))
+                    return out
+                del self.obligations[n_obl:]
+                raise EngineError("max/min over a symbolic map with a body that forks, may raise or is not an integer (line %d)" % node.lineno)
         if (isinstance(node.func, ast.Name) and node.func.id in ("any", "all") and len(node.args) == 1
                 and isinstance(node.args[0], ast.GeneratorExp) and len(node.args[0].generators) == 1
                 and node.func.id not in st.env):
